@@ -99,7 +99,9 @@ def store_protocol(ctx: Ctx, prefix: str, which: set[str]) -> None:
         ctx.ob(f"{prefix}-notify-after-write", con, ok, "listeners must be notified after the data is in the mapping (callbacks read it)", node=notify_new[0])
     if "pending" in which:
         pend = [c for c in walk_body(f) if isinstance(c, ast.Call) and last_attr(c) == "add_pending_array"]
-        ctx.need(len(pend) == 1, "Database.store: add_pending_array call not found")
+        ctx.ob(f"{prefix}-pending-always", con, len(pend) == 1, "every store must mark its point pending for the next incremental export (add_pending_array is missing)", node=(pend or [f])[0], stmt="add_pending_array present")
+        if len(pend) != 1:
+            return
         pn = cfg.node_of(pend[0])
         ok = bool(pend[0].args) and dotted(pend[0].args[0]) == key
         ctx.ob(f"{prefix}-pending-key", con, ok, "the pending array must be the converted (copied) key", node=pend[0])
